@@ -47,6 +47,36 @@ def parse (x : B) : HeaderResult :=
   let header := V2.parse x
   if isCompleteV2 header && isErr header then .v1 (V1.parseBytes x) else .v2 header
 
+/-- The three verdict classes of a result. -/
+inductive Cls where
+  | ok | inc | term
+  deriving DecidableEq, Repr
+
+def clsV1 (r : Except V1.BinaryParseError V1.Header) : Cls :=
+  match r with
+  | .ok _ => .ok
+  | .error e => if e.isIncomplete then .inc else .term
+
+def clsV2 (r : Except V2.ParseError V2.Header) : Cls :=
+  match r with
+  | .ok _ => .ok
+  | .error e => if e.isIncomplete then .inc else .term
+
+def HeaderResult.cls : HeaderResult → Cls
+  | .v1 r => clsV1 r
+  | .v2 r => clsV2 r
+
+def HeaderResult.isV2 : HeaderResult → Bool
+  | .v1 _ => false
+  | .v2 _ => true
+
+/-- What `HeaderResult::parse` does, as a function of the verdicts of the two dedicated
+parsers alone (version-2 verdict first): the tag (`true` = V2) and the class of the result.
+The correspondence run evaluates this on the *implementation's* dedicated verdicts and compares
+with the implementation's auto-detected result (op `autoc`). -/
+def verdict (c2 c1 : Cls) : Bool × Cls :=
+  if c2 = .term then (false, c1) else (true, c2)
+
 /-- Panic-aware variant. -/
 def parseP (x : B) : Outcome HeaderResult := do
   let header ← V2.parseP x
